@@ -114,7 +114,14 @@ def rule_domains(rule, rng):
     if len(base) >= 2:
         out.append(("removed", base[:-1]))
     out.append(("replaced", base[:-1] + [lab()]))
-    return [(shape, b".".join(reversed(ls))) for shape, ls in out]
+    named = [(shape, b".".join(reversed(ls))) for shape, ls in out]
+    # names with an empty label around the rule: a leading dot in front of a wildcard's parent makes the wildcard match the
+    # empty label; every one of these must be refused by effective_tld_plus_one and is not an effective TLD
+    extra = []
+    for shape, n in named:
+        if shape in ("wild-parent", "asis", "+1"):
+            extra += [(shape + "/lead-dot", b"." + n), (shape + "/trail-dot", n + b"."), (shape + "/inner-empty", b"a.." + n)]
+    return named + extra
 
 
 WEIRD = ["", ".", "..", "...", "a", "a.", ".a", "a..b", "com", "com.", ".com", "..com", "com..", "*.ck", "!www.ck", "www.ck",
